@@ -525,6 +525,12 @@ class Query:
         return make_tables(*names, **kwargs)
 
 
+def _column_position(position: int) -> ValueWrapper:
+    """ORDER BY 2 / GROUP BY 1 name a column of the select list by its position: the number is part of the statement's
+    text, not a value - as a bound parameter it would be a constant that orders or groups nothing"""
+    return ValueWrapper(position, allow_parametrize=False)
+
+
 class _SetOperation(Selectable, Term):  # type:ignore[misc]
     """
     A Query class wrapper for a all set operations, Union DISTINCT or ALL, Intersect, Except or Minus
@@ -555,6 +561,8 @@ class _SetOperation(Selectable, Term):  # type:ignore[misc]
     @builder
     def orderby(self, *fields: Field, **kwargs: Any) -> "Self":  # type:ignore[return]
         for field in fields:
+            if isinstance(field, int) and not isinstance(field, bool):
+                field = _column_position(field)  # type:ignore[assignment]
             field = (
                 Field(field, table=self.base_query._from[0])  # type:ignore[assignment]
                 if isinstance(field, str)
@@ -1195,8 +1203,7 @@ class QueryBuilder(Selectable, Term):  # type:ignore[misc]
             if isinstance(term, str):
                 term = Field(term, table=self._from[0])
             elif isinstance(term, int):
-                field = Field(str(term), table=self._from[0])
-                term = field.wrap_constant(term)
+                term = _column_position(term)
 
             self._groupbys.append(term)  # type:ignore[arg-type]
 
@@ -1240,6 +1247,8 @@ class QueryBuilder(Selectable, Term):  # type:ignore[misc]
     @builder
     def orderby(self, *fields: Any, **kwargs: Any) -> "Self":  # type:ignore[return]
         for field in fields:
+            if isinstance(field, int) and not isinstance(field, bool):
+                field = _column_position(field)
             field = (
                 Field(field, table=self._from[0])
                 if isinstance(field, str)
